@@ -29,7 +29,7 @@ RULE = (
     "other texts in between); non-trivial = text of >= 2 tokens; distinct = distinct texts"
 )
 ASSUMPTIONS = ["an invalid regular expression inside a pattern counts as a reported definition error, not as a well-formed text"]
-MUST_SEE = ["class_object_that_is_falsy", "edge_whitespace_characters", "payloads_naming_unknown_class_read_before", "syntax_error_next_to_format_characters", "regex_unpaired_brackets", "regex_engine_limit_literals", "regex_inner_whitespace", 
+MUST_SEE = ["one_regex_literal_under_several_capture_names", "class_object_that_is_falsy", "edge_whitespace_characters", "payloads_naming_unknown_class_read_before", "syntax_error_next_to_format_characters", "regex_unpaired_brackets", "regex_engine_limit_literals", "regex_inner_whitespace", 
     "xpath_accepted", "xpath_rejected", "pattern_accepted", "pattern_rejected", "mutations_still_valid", "whitespace_variants", "recompiles_cold",
     "recompiles_hot", "unknown_class", "non_node_class", "duplicate_capture", "var_before_capture", "var_inside_own_capture", "random_strings", "late_defined_class", "compile_after_rejected", "escaped_quote_regexes",
 ]
@@ -397,6 +397,22 @@ def run_shard(ctx):
                 check_pattern(text, None, "edge-whitespace")
             for text in (ch + f"//{P}Leaf", f"//{P}Leaf" + ch):
                 check_xpath(text, None, "edge-whitespace")
+        # one regex literal under different capture names (and without one) in definitions compiled one after the other: every
+        # compiled matcher keeps the captures of its own text
+        for rx in (".*", "^$|^a", "[0-9]*"):
+            t1, t2, t3 = f'({P}Leaf @s="{rx}" -> first)', f'({P}Leaf @s="{rx}" -> second)', f'({P}Leaf @s="{rx}")'
+            m1 = NodeMatcher.from_pattern(t1)[0]
+            v1 = pattern_vec(m1) if m1 is not None else None
+            m2 = NodeMatcher.from_pattern(t2)[0]
+            m3 = NodeMatcher.from_pattern(t3)[0]
+            ctx.evaluations += 1
+            ctx.count("one_regex_literal_under_several_capture_names")
+            if None in (m1, m2, m3):
+                bad("pattern-wrong-verdict", "a well-formed pattern was rejected", text=t1)
+                continue
+            names = lambda vec: {n for ok_, caps_ in vec for n in caps_}  # noqa: E731
+            if pattern_vec(m1) != v1 or names(pattern_vec(m1)) - {"first"} or names(pattern_vec(m2)) - {"second"} or names(pattern_vec(m3)) or not names(v1):
+                bad("recompile", "matchers compiled from texts that share a regex literal under different capture names do not keep their own captures", text=t1, first=sorted(names(pattern_vec(m1))), second=sorted(names(pattern_vec(m2))), none=sorted(names(pattern_vec(m3))))
         # a node class whose class object is falsy (its metaclass counts instances: len(cls) == 0) is a class like any other
         if f"{P}Counted17" not in U.module.__dict__:
             src = (
